@@ -223,6 +223,27 @@ def run(ctx):
     except Exception as ex:
         ctx.violation({"kind": "well-posed-neumann-refused"}, "Neumann/Neumann with C = 1 was refused: %s" % ex, {})
     ctx.count(("refusal",))
+    # the same for every mode index: a mode that is Neumann on both sides is ill posed exactly when nothing fixes the free constant,
+    # i.e. C = 0 and m^2 D = 0 (m = 0, or D = 0: Galerkin.tla, IllPosed); it must be refused then, and accepted when C != 0
+    for mode in (0, 1, 2, -1, 4, 7):
+        for (Dz, Cz) in ((True, True), (True, False), (False, False)):
+            kw = {}
+            if Dz:
+                kw["ddThetaFactor"] = lambda r: 0.0
+            if not Cz:
+                kw["rFactor"] = lambda r: 1.0
+            ill = Cz and (mode == 0 or Dz)
+            try:
+                DiffEqSolver(10, basis, basis.nbasis, 8, lNeumannIdx=[mode], uNeumannIdx=[mode, 3] if mode != 3 else [mode], **kw)
+                accepted = True
+            except ValueError:
+                accepted = False
+            ctx.count(("refusal", mode, Dz, Cz))
+            if ill and accepted:
+                ctx.violation({"kind": "pure-neumann-accepted", "mode_zero": mode == 0}, "mode %d with Neumann conditions on both sides, C = 0 and %s was accepted (ill posed)" % (
+                    mode, "D = 0" if Dz else "m = 0"), {"mode": mode, "D_null": Dz})
+            if (not Cz) and not accepted:
+                ctx.violation({"kind": "well-posed-neumann-refused", "mode_zero": mode == 0}, "mode %d Neumann/Neumann with C = 1 was refused" % mode, {"mode": mode, "D_null": Dz})
     ctx.extra["manufactured_solutions"] = len(queries)
     ctx.extra["max_relative_deviation"] = worst
     ctx.extra["mode_table_8"] = modes[8]["m"]
